@@ -781,7 +781,11 @@ class Interp:
             x = z3.Const(p.fresh_name("x"), es)
             more = p.choose(z3.Bool(p.fresh_name("more")))
             if more:
-                p.assume(it.member(x))
+                mx = it.member(x)
+                p.assume(mx)
+                for cj in _conj(mx):
+                    p.pc_tags[z3.simplify(cj).get_id()] = "member"
+                    p.pc_tags[cj.get_id()] = "member"
                 if it.distinct is True:
                     p.assume(z3.Not(done[x]))
                 self.assign(s.target, it.elem(self, x), env)
@@ -792,6 +796,8 @@ class Interp:
         else:
             more = self.test(self.eval(s.test, env))
         if more:
+            if is_for:
+                p.ghost["__loopvars__"] = p.ghost.get("__loopvars__", []) + [(x, it)]
             try:
                 try:
                     self.exec_block(s.body, env)
@@ -842,7 +848,11 @@ class Interp:
         if p.choose(z3.Bool(p.fresh_name("iter"))):
             # arbitrary element
             x = z3.Const(p.fresh_name("x"), it.elem_ty.sort())
-            p.assume(it.member(x))
+            mx = it.member(x)
+            p.assume(mx)
+            for cj in _conj(mx):
+                p.pc_tags[z3.simplify(cj).get_id()] = "member"
+                p.pc_tags[cj.get_id()] = "member"
             saved = {n: env.get(n) for n in body_names if n in env}
             for n in body_names:
                 env[n] = Poison(n, "assigned in a loop body without invariant")
@@ -1615,6 +1625,15 @@ class PureEval:
         if isinstance(e, ast.Subscript):
             return it.model.pure_subscript(it, self, e, env)
         raise Unsupported(f"pure evaluation of {type(e).__name__}")
+
+
+def _conj(f):
+    if z3.is_and(f):
+        out = []
+        for c in f.children():
+            out.extend(_conj(c))
+        return out
+    return [f]
 
 
 def _zb(x):
